@@ -38,6 +38,8 @@ class _State:
         self.definedness = []  # (kind, term) obligations: denominators / radicands met
         self.track_defined = False
         self.uf_axioms = True
+        self.side_raw = []  # the sqrt / solve definitions once more, with the radicand as the program built it (not simplified): lets a harness substitute sub-terms structurally
+        self.solves = []  # linear solves / inverses met: (kind, A, B or None, X) with X fresh unknowns constrained by A X = B (A X = I); sound for non-singular A
         self.float_placeholder = None  # value returned by float() of a symbolic scalar (ONLY for code that merely formats it)
 
 
@@ -275,6 +277,7 @@ def _sqrt_var(x):
         s = fresh("sqrt")
         ST.sq[key] = (s, xs)
         ST.side.append(z3.And(s >= 0, s * s == xs))
+        ST.side_raw.append(z3.And(s >= 0, s * s == x))
     return ST.sq[key][0]
 
 
@@ -1602,6 +1605,44 @@ def _einsum(eq, *ops):
     if len(ops) == 1 and isinstance(ops[0], (list, tuple)):
         ops = ops[0]
     return SymTensor(np.einsum(eq, *[to_obj(o) for o in ops], optimize=False))
+
+
+@implements(torch.linalg.solve)
+def _h_solve(A, B, left=True, **kw):
+    """x = solve(A, B): fresh unknowns X constrained by A X = B (the unique solution when A is non-singular, which is the
+    documented precondition of torch.linalg.solve); the triple is recorded so that a harness can reason coefficient-wise."""
+    a, b = to_obj(A), to_obj(B)
+    if not left or a.ndim < 2 or b.ndim != a.ndim:
+        raise NotImplementedError("linalg.solve: only A (..., n, n) X = B (..., n, k)")
+    x = np.empty(b.shape, dtype=object)
+    for k in np.ndindex(x.shape):
+        x[k] = fresh("lsx")
+    prod = np.matmul(a, x)
+    for k in np.ndindex(x.shape):
+        ST.side.append(prod[k] == b[k])
+        ST.side_raw.append(prod[k] == b[k])
+    ST.solves.append(("solve", a.copy(), b.copy(), x.copy()))
+    return SymTensor(x)
+
+
+@implements(torch.inverse, torch.linalg.inv)
+def _h_inverse(A, **kw):
+    """inverse(A): fresh unknowns X with A X = I and X A = I (A non-singular is torch's precondition)"""
+    a = to_obj(A)
+    n = a.shape[-1]
+    x = np.empty(a.shape, dtype=object)
+    for k in np.ndindex(x.shape):
+        x[k] = fresh("inv")
+    eye = np.empty((n, n), dtype=object)
+    for i in range(n):
+        for j in range(n):
+            eye[i, j] = ONE if i == j else ZERO
+    for prod in (np.matmul(a, x), np.matmul(x, a)):
+        for k in np.ndindex(x.shape):
+            ST.side.append(prod[k] == eye[k[-2], k[-1]])
+            ST.side_raw.append(prod[k] == eye[k[-2], k[-1]])
+    ST.solves.append(("inverse", a.copy(), None, x.copy()))
+    return SymTensor(x)
 
 
 @implements(torch.lerp)
